@@ -140,6 +140,12 @@ def FPBA_PICK(d):
     return 'nesterov_sequence1_t' in txt
 
 
+def ellipsoid():
+    cname, tu, flt, kw = [b for b in nonls.BODIES if b[0] == 'ellipsoid_do_minimize'][0]
+    return Target('ellipsoid_stop_test', [nonls.body(cname, tu, flt, **kw), common.fn_done()], nonls.H, replace=['solver_done'], defines=['NV_C03'],
+                  note='ellipsoid: converged => the stopping test was evaluated in the returning iteration')
+
+
 def targets(defines=()):
     done = common.fn_done
     return [Target('csearch_search', [search()], H, defines=defines),
